@@ -63,6 +63,96 @@ CHECKS["C03"] = dict(
          "Not covered: x87 control word, AVX state, signal masks.",
     engine="lean+ctxdrv")
 
+CHECKS["C04"] = dict(
+    technique="Lean 4 theorems about the process-layer model + differential correspondence of the model with the library on generated "
+              "scenarios (complete observable logs) + log monitors for the search of a failing input",
+    text='Props/C04.lean (timers / holds are pending events at exactly now+d addressed to the process; library scheduling never moves the clock; signal encoding round-trips) over the executable process-layer model, which mirrors every internal cmb_event_schedule of the C code in order; the model is tied to the code by diffing complete logs of generated scenarios (timeouts armed before blocking calls, several causes on one instant, interrupts/stops/preemptions of blocked processes); the C04 monitor (hold exactness, no stale wake-up, every non-success return matched by a notification, armed timers fire, nobody suspended past its cause) runs on every implementation log. The whole-layer invariants (I_epoch, I_waiters, I_timers) are carried by the monitored correspondence unless listed as theorems in Props/C04.lean.',
+    design_ref="DESIGN.md §3.4, §4 C04",
+    note=LEVEL_NOTE_COMMON + "C04: the process-layer model (CimbaModel/Sim) is hand-written and tied to the code only by differential "
+         "execution; the monitors (tools/simmon.py) are search tools, not proof.",
+    engine="lean+simdrv")
+
+CHECKS["C05"] = dict(
+    technique="Lean 4 theorems about the process-layer model + differential correspondence of the model with the library on generated "
+              "scenarios (complete observable logs) + log monitors for the search of a failing input",
+    text='Props/C05.lean over the process-layer model (acquire of a held resource blocks and never steals; demand = holder is none; further invariants as listed in the file); tie: scenario correspondence with acquire-hold-release loops with immediate re-acquire, simultaneous arrivals, waiters timing out / interrupted / stopped, holders ending while holding, preempt; monitor: two-holders detection from the acquire/release history, holder query vs history, ended holders.',
+    design_ref="DESIGN.md §3.4, §4 C05",
+    note=LEVEL_NOTE_COMMON + "C05: the process-layer model (CimbaModel/Sim) is hand-written and tied to the code only by differential "
+         "execution; the monitors (tools/simmon.py) are search tools, not proof.",
+    engine="lean+simdrv")
+
+CHECKS["C07"] = dict(
+    technique="Lean 4 theorems about the process-layer model + differential correspondence of the model with the library on generated "
+              "scenarios (complete observable logs) + log monitors for the search of a failing input",
+    text='Props/C07.lean (holder order = documented victim order, total; pool demand = units available; further invariants as listed) over the process-layer model; tie: scenario correspondence with amounts 1..capacity, partial fulfilment, waiting, interrupts/timeouts/preemptions/stops between the steps of one acquisition; monitor: in_use = sum of holdings <= capacity, per-process accounting (+n on success, unchanged on any other signal, -n on release, 0 at end).',
+    design_ref="DESIGN.md §3.4, §4 C07",
+    note=LEVEL_NOTE_COMMON + "C07: the process-layer model (CimbaModel/Sim) is hand-written and tied to the code only by differential "
+         "execution; the monitors (tools/simmon.py) are search tools, not proof.",
+    engine="lean+simdrv")
+
+CHECKS["C08"] = dict(
+    technique="Lean 4 theorems about the process-layer model + differential correspondence of the model with the library on generated "
+              "scenarios (complete observable logs) + log monitors for the search of a failing input",
+    text='Props/C08.lean (the demand predicates the guards evaluate are exactly the availability conditions; further theorems as listed) over the process-layer model; tie: scenario correspondence for every guard-based object type with release/put/get/rollback/drop/cancel against arrivals, timeouts, interrupts, preemptions, stops on the same instant; monitor: at quiescence nobody is blocked on a free resource / available pool / non-empty or non-full buffer or queue.',
+    design_ref="DESIGN.md §3.4, §4 C08",
+    note=LEVEL_NOTE_COMMON + "C08: the process-layer model (CimbaModel/Sim) is hand-written and tied to the code only by differential "
+         "execution; the monitors (tools/simmon.py) are search tools, not proof.",
+    engine="lean+simdrv")
+
+CHECKS["C09"] = dict(
+    technique="Lean 4 theorems about the process-layer model + differential correspondence of the model with the library on generated "
+              "scenarios (complete observable logs) + log monitors for the search of a failing input",
+    text='Props/C09.lean over the process-layer model; tie: scenario correspondence with every ending route (return, exit, stop by other, stop self) in every blocked state, restarts; monitor: waiters resumed at the instant of the end with SUCCESS / STOPPED, nothing held by ended processes, exit values, nobody waiting for an ended process.',
+    design_ref="DESIGN.md §3.4, §4 C09",
+    note=LEVEL_NOTE_COMMON + "C09: the process-layer model (CimbaModel/Sim) is hand-written and tied to the code only by differential "
+         "execution; the monitors (tools/simmon.py) are search tools, not proof.",
+    engine="lean+simdrv")
+
+CHECKS["C11"] = dict(
+    technique="Lean 4 theorems about the process-layer model + differential correspondence of the model with the library on generated "
+              "scenarios (complete observable logs) + log monitors for the search of a failing input",
+    text='Props/C11.lean over the process-layer model (ghost totals of puts/gets); tie: scenario correspondence with amounts 0, > capacity, unlimited capacity, interrupts/timeouts between partial transfers; monitor: level = sum(put) - sum(got) within [0, capacity], success = full amount, reported partial amounts.',
+    design_ref="DESIGN.md §3.4, §4 C11",
+    note=LEVEL_NOTE_COMMON + "C11: the process-layer model (CimbaModel/Sim) is hand-written and tied to the code only by differential "
+         "execution; the monitors (tools/simmon.py) are search tools, not proof.",
+    engine="lean+simdrv")
+
+CHECKS["C12"] = dict(
+    technique="Lean 4 theorems about the process-layer model + differential correspondence of the model with the library on generated "
+              "scenarios (complete observable logs) + log monitors for the search of a failing input",
+    text='Props/C12.lean (compare_func regenerated from the C source is the documented order: priority descending, put order) over the process-layer model; tie: scenario correspondence, capacities 1 / small / unlimited, NULL and duplicate objects, blocking on both ends, interrupts/timeouts/stops; monitor: FIFO prefix property, highest-priority-first delivery, failed gets deliver nothing, lengths within capacity.',
+    design_ref="DESIGN.md §3.4, §4 C12",
+    note=LEVEL_NOTE_COMMON + "C12: the process-layer model (CimbaModel/Sim) is hand-written and tied to the code only by differential "
+         "execution; the monitors (tools/simmon.py) are search tools, not proof.",
+    engine="lean+simdrv")
+
+CHECKS["C13"] = dict(
+    technique="Lean 4 theorems about the process-layer model + differential correspondence of the model with the library on generated "
+              "scenarios (complete observable logs) + log monitors for the search of a failing input",
+    text='Props/C13.lean over the process-layer model (condition signal = every waiter in heap-array order whose predicate holds); tie: scenario correspondence through the public entry points (wait/signal/cancel/remove/subscribe) with 5 predicate kinds and observed guards; monitor clause for forwarded signals. Known finding (not repaired): a forwarded signal evaluates only the front waiter.',
+    design_ref="DESIGN.md §3.4, §4 C13",
+    note=LEVEL_NOTE_COMMON + "C13: the process-layer model (CimbaModel/Sim) is hand-written and tied to the code only by differential "
+         "execution; the monitors (tools/simmon.py) are search tools, not proof.",
+    engine="lean+simdrv")
+
+CHECKS["C14"] = dict(
+    technique="Lean 4 theorems about the process-layer model + differential correspondence of the model with the library on generated "
+              "scenarios (complete observable logs) + log monitors for the search of a failing input",
+    text='Props/C14.lean over the process-layer model; tie: scenario correspondence including the complete recorded histories (value,time) of every resource, pool, buffer, queue, with recording toggled at arbitrary times and the indirect state changes (preemption, rollback, drops on end/stop, cancellation); monitor: sample times nondecreasing, history = true trajectory where the log determines it.',
+    design_ref="DESIGN.md §3.4, §4 C14",
+    note=LEVEL_NOTE_COMMON + "C14: the process-layer model (CimbaModel/Sim) is hand-written and tied to the code only by differential "
+         "execution; the monitors (tools/simmon.py) are search tools, not proof.",
+    engine="lean+simdrv")
+
+CHECKS["C10"] = dict(
+    technique="Lean 4 theorems about the process-layer model + differential correspondence of the model with the library on generated "
+              "scenarios (complete observable logs) + log monitors for the search of a failing input",
+    text='Props/C10.lean: every operation of every valid history of the hashheap model (bounds-checked arrays, release asserts as faults) returns .ok for the four ordering functions of the library, across any number of doublings (from C02). Everything else only by the tie: the same generated valid programs as the other checks (process-layer scenarios of every profile, hashheap op sequences with exact state, event-kernel scripts, corpus/san steered to growth thresholds) run against the ASan+UBSan build with debug asserts on; a sanitizer report or abort on a valid program is a violation with that input as replay.',
+    design_ref="DESIGN.md §3.4, §4 C10",
+    note=LEVEL_NOTE_COMMON + "C10: the process-layer model (CimbaModel/Sim) is hand-written and tied to the code only by differential "
+         "execution; the monitors (tools/simmon.py) are search tools, not proof.",
+    engine="lean+simdrv")
+
 PENDING = {
 }
 
@@ -71,6 +161,7 @@ ENGINES = [
     dict(name="translators", path="tools/c2lean.py", serves_properties=[], kind_free_text="T-gen: clang JSON AST -> Lean definitions, regenerated on every run into lean/CimbaModel/Generated/"),
     dict(name="evdrv", path="harness/evdrv.c", serves_properties=["C01"], kind_free_text="C driver for the event-kernel script language (ops from outside and inside actions), observable log"),
     dict(name="ctxdrv", path="harness/ctxdrv.c", serves_properties=["C03"], kind_free_text="C/asm driver: initial frame dump, first-entry / return probes, bookkeeping scripts through the real coroutine API"),
+    dict(name="simdrv", path="harness/simdrv.c", serves_properties=["C04","C05","C06","C07","C08","C09","C10","C11","C12","C13","C14"], kind_free_text="C scenario interpreter for the process layer (scripted processes over resources, pools, buffers, queues, conditions) against the real library"),
     dict(name="hhdrv", path="harness/hhdrv.c", serves_properties=["C02", "C06"], kind_free_text="C driver for exact-state correspondence of cmi_hashheap.c with the Lean model"),
 ]
 
